@@ -5,6 +5,8 @@ import OpusProofs.RepackInPlace
 import OpusProofs.RepackDecode
 import OpusProofs.DecSkelShift
 import OpusProofs.RepackRanges
+import OpusProofs.RepackMsDecode
+import OpusProofs.RepackMsLoop
 import OpusProofs.ExtZero
 /-
   Property C07 — "Repacketizer, pad and unpad preserve frames and always emit valid packets".
@@ -596,6 +598,163 @@ theorem int_ranges_noext (s : Rp) (hs : Reachable s) (b e : Nat) (hb : b < e) (h
    fun tot ht hfit => pad_arith_ranges tot maxlen ht hm hfit,
    fun curr b0 hc hb0 => (cat_arith_ranges s (reachable_inv hs) curr hc b0 hb0).1,
    fun f hf => (cat_arith_ranges s (reachable_inv hs) 0 (by omega) 0 (by omega)).2 f hf⟩
+
+/-- `int_ranges`, extension path (repacketizer.c:271-299): with `tot` the size before padding (`2 ≤ tot ≤ 61298`
+    on reachable states by `int_ranges_noext`), `maxlen` any `opus_int32 ≥ tot` and `ext_len` what the dry
+    run of the generator returned (`0 ≤ ext_len ≤ maxlen - tot`, larger lists are refused by the generator):
+    every intermediate — `pad_amount` (both branches), `ext_len/254`, `nb_255s`, the re-check
+    `tot_size + ext_len + nb_255s + 1`, `ext_begin`, `ones_begin`, the final `tot_size`, the last length
+    byte — is an `opus_int32`, provided `maxlen ≤ 2139062142` (= 2^31 − 8421506) or `ext_len ≤ 2^30`.
+    Beyond: see `int_ranges_ext_tight`. -/
+theorem int_ranges_ext (tot maxlen extLen : Int) (pad : Bool) (ht : 2 ≤ tot ∧ tot ≤ 61298) (hm : I32 maxlen)
+    (hfit : tot ≤ maxlen) (he : 0 ≤ extLen ∧ extLen ≤ maxlen - tot)
+    (hbound : maxlen ≤ 2139062142 ∨ extLen ≤ 1073741824) :
+    let amount := if pad then maxlen - tot else extLen + extLen / 254 + 1
+    let nb := (amount - 1) / 255
+    I32 (maxlen - tot) ∧ I32 (extLen / 254) ∧ I32 (extLen + extLen / 254) ∧ I32 amount ∧ I32 (amount - 1) ∧ I32 nb ∧
+    I32 (tot + extLen) ∧ I32 (tot + extLen + nb) ∧ I32 (tot + extLen + nb + 1) ∧
+    I32 (tot + amount) ∧ I32 (tot + amount - extLen) ∧ I32 (tot + nb + 1) ∧
+    I32 (255 * nb) ∧ I32 (amount - 255 * nb - 1) :=
+  ext_arith_ranges tot maxlen extLen pad ht hm hfit he hbound
+
+/-- The bound of `int_ranges_ext` is tight: at `maxlen = 2139062143` (no `pad`, extension payload filling the
+    buffer) the sum of the re-check is `2^31`, and at `maxlen = INT32_MAX` with `pad` it exceeds it.  Reaching
+    this needs more than 2 GB of extension payload; the C code would then compute a signed overflow (undefined
+    behaviour), which is outside the model — recorded, not a reachable defect. -/
+theorem int_ranges_ext_tight :
+    (let maxlen : Int := 2139062143
+     let tot : Int := 2
+     let extLen : Int := maxlen - tot
+     ¬ I32 (tot + extLen + (extLen + extLen / 254 + 1 - 1) / 255 + 1)) ∧
+    (let maxlen : Int := 2147483647
+     let tot : Int := 2
+     let extLen : Int := maxlen - tot
+     ¬ I32 (tot + extLen + (maxlen - tot - 1) / 255 + 1)) :=
+  ext_arith_overflow_example
+
+/-- `opus_multistream_packet_unpad` on ARBITRARY bytes, `n ≥ 1` streams: accepted exactly when the bytes are
+    `n-1` self-delimited valid packets followed by one standard valid packet (`MsShape n bs`, the shape C10
+    proves for `opus_multistream_packet_validate`, minus the equal-duration requirement, which unpad does not
+    check); then the result is the concatenation of the canonical packets.  Anything else is refused with
+    `OPUS_INVALID_PACKET` (`OPUS_BAD_ARG` for an empty buffer); never an out-of-bounds read or an assertion.
+    NOTE (true of the code, not expressible in the pure model): on rejection the C function has already
+    rewritten the streams before the offending one in the caller's buffer. -/
+theorem ms_unpad_bytes (bs : Bytes) (hb : BytesOk bs) (n : Nat) (hn : 1 ≤ n) :
+    (∀ ps : List Packet, ps.length = n → (∀ p ∈ ps, Valid p) → bs = msSerialize ps →
+        msUnpad bs n = .ok (msSerialize (ps.map fun p => canonPacket p.toc p.frames))) ∧
+    ((∃ out, msUnpad bs n = .ok out) ↔ MsShape n bs) ∧
+    (bs ≠ [] → ¬ MsShape n bs → msUnpad bs n = .err .invalidPacket) ∧
+    (bs = [] → msUnpad bs n = .err .badArg) := by
+  obtain ⟨h1, h2, h3⟩ := msUnpad_bytes bs hb n hn
+  refine ⟨h1, ⟨?_, ?_⟩, h2, h3⟩
+  · rintro ⟨out, ho⟩
+    apply Classical.byContradiction
+    intro hns
+    by_cases hne : bs = []
+    · rw [h3 hne] at ho; cases ho
+    · rw [h2 hne hns] at ho; cases ho
+  · rintro ⟨ps, hlen, hv, hbs⟩
+    exact ⟨_, h1 ps hlen hv hbs⟩
+
+/-- `opus_multistream_packet_pad` on ARBITRARY non-empty bytes, `n ≥ 1` streams: `BAD_ARG` for
+    `new_len < len`, `OK` with the buffer as it is for `new_len = len` (the packet is not looked at); for
+    `new_len > len`: multistream shape with an extension-free last stream ⇒ `OK`, all padding in the last
+    stream; no multistream shape ⇒ `OPUS_INVALID_PACKET` — or `OPUS_BAD_ARG` in the single case where `n-1`
+    self-delimited packets use up the whole buffer (the code then calls `opus_packet_pad` with `len = 0`).
+    In every rejecting case the C function has not written to the buffer (it only parses, and
+    `opus_packet_pad` works on a copy until `cat` has accepted). -/
+theorem ms_pad_bytes (bs : Bytes) (hb : BytesOk bs) (hne : bs ≠ []) (n : Nat) (hn : 1 ≤ n) (newLen : Int) :
+    (newLen < bs.length → msPad bs newLen n = .err .badArg) ∧
+    (newLen = bs.length → msPad bs newLen n = .ok bs) ∧
+    ((bs.length : Int) < newLen →
+      (∀ (pre : List Packet) (last : Packet), pre.length + 1 = n → (∀ p ∈ pre, Valid p) → Valid last → PadFree last →
+          bs = msJoin pre last →
+          msPad bs newLen n = .ok (msJoin pre (outPacket last.toc last.frames
+              ((serialize false last).length + (newLen - bs.length)) false true))) ∧
+      (¬ MsShape n bs →
+        msPad bs newLen n = .err .invalidPacket ∨
+        (msPad bs newLen n = .err .badArg ∧ ∃ pre : List Packet, pre.length = n - 1 ∧ (∀ p ∈ pre, Valid p) ∧
+            bs = pre.flatMap (serialize true)))) := by
+  have hlen : ¬ bs.length < 1 := by
+    cases bs with
+    | nil => exact absurd rfl hne
+    | cons => simp
+  refine ⟨?_, ?_, ?_⟩
+  · intro h; unfold msPad; rw [if_neg hlen, if_neg (by omega), if_pos (by omega)]
+  · intro h; unfold msPad; rw [if_neg hlen, if_pos h.symm]
+  · intro hgt
+    refine ⟨?_, msPad_reject bs hb hne n hn newLen hgt⟩
+    intro pre last hpl hv hl hpf hbs
+    have := msPad_serialize pre last hv hl hpf newLen (by rw [← hbs]; exact hgt)
+    rw [hpl, ← hbs] at this
+    exact this
+
+/-- Composition with C10: a packet accepted by `opus_multistream_packet_validate` (C10's model
+    `msPacketValidate`: `n` valid sub-packets of equal duration `k`) is accepted by
+    `opus_multistream_packet_unpad`; the result is not longer and is accepted by the validator again, with
+    the same duration — so the multistream decoder's entry checks pass on it exactly as on the original. -/
+theorem ms_unpad_validated (bs : Bytes) (hb : BytesOk bs) (n fs k : Nat) (hn : 1 ≤ n) (hfs : Opus.LayoutSpec.Rate fs)
+    (h : Opus.Layout.msPacketValidate bs n fs = .ok k) :
+    ∃ out, msUnpad bs n = .ok out ∧ out.length ≤ bs.length ∧ Opus.Layout.msPacketValidate out n fs = .ok k :=
+  msUnpad_validated bs hb n fs k hn hfs h
+
+/-- Decoder-facing consequence of multistream unpad, stream by stream: stream `s` of
+    `opus_multistream_decode_native` is handed the bytes that remain after the previous streams, i.e.
+    `msSerialize (ps.drop s)` for the original and the same with canonical packets for the unpadded packet;
+    both parse (framing: self-delimited unless last) with the same frame sizes, and C01's `opus_decode_native`
+    skeleton returns the same value and ends in the same run up to the shift of the frame offsets, for DSP
+    oracles that behave the same on the same frame bytes — from every start run.  (The whole-call statement is
+    `ms_unpad_same_decode` below.) -/
+theorem ms_unpad_stream_same_decode (ps : List Packet) (hv : ∀ p ∈ ps, Valid p) (s : Nat) (hs : s < ps.length) :
+    ∃ (p1 p2 : Parsed),
+      parseImpl (decide (s ≠ ps.length - 1)) (msSerialize (ps.drop s)) = .ok p1 ∧
+      parseImpl (decide (s ≠ ps.length - 1)) (msSerialize ((ps.map fun p => canonPacket p.toc p.frames).drop s)) = .ok p2 ∧
+      p1.sizes = p2.sizes ∧
+      ∀ (o1 o2 : Oracle), OracleShift o1 o2 ((p2.payloadOffset : Int) - (p1.payloadOffset : Int)) →
+      ∀ (pcm : Ptr) (frame_size fec : Int) (sc : Bool) (run : Run),
+        (decodeNative o2 (some (msSerialize ((ps.map fun p => canonPacket p.toc p.frames).drop s)))
+            (msSerialize ((ps.map fun p => canonPacket p.toc p.frames).drop s)).length pcm frame_size fec
+            (decide (s ≠ ps.length - 1)) sc (shiftRun ((p2.payloadOffset : Int) - (p1.payloadOffset : Int)) run)).ret =
+          (decodeNative o1 (some (msSerialize (ps.drop s))) (msSerialize (ps.drop s)).length pcm frame_size fec
+            (decide (s ≠ ps.length - 1)) sc run).ret ∧
+        (decodeNative o2 (some (msSerialize ((ps.map fun p => canonPacket p.toc p.frames).drop s)))
+            (msSerialize ((ps.map fun p => canonPacket p.toc p.frames).drop s)).length pcm frame_size fec
+            (decide (s ≠ ps.length - 1)) sc (shiftRun ((p2.payloadOffset : Int) - (p1.payloadOffset : Int)) run)).run =
+          shiftRun ((p2.payloadOffset : Int) - (p1.payloadOffset : Int))
+            (decodeNative o1 (some (msSerialize (ps.drop s))) (msSerialize (ps.drop s)).length pcm frame_size fec
+              (decide (s ≠ ps.length - 1)) sc run).run :=
+  ms_unpad_stream_decode ps hv s hs
+
+/-- Decoder-facing consequence of multistream unpad, whole call (`ms_unpad_same_decode`): C01's model
+    `msDecodeFull` of `opus_multistream_decode_native` — entry checks incl. `opus_multistream_packet_validate`, the
+    stream loop with the real per-stream `opus_decode_native` skeleton, C10's copy-out routing — run on a
+    multistream packet `msSerialize ps` (valid sub-packets, one per stream of the layout) and on its unpadded
+    form, with per-stream DSP oracles that behave the same when handed the same frame bytes at the shifted
+    address (`OracleShift (os1 i) (os2 i) dᵢ`, `dᵢ = firstShift (ps.drop i)` = payload offset of stream `i`'s
+    canonical packet minus that of the original): the same return value, the same decoder states of all
+    streams, the same `copy_channel_out` calls, the same per-stream return values, and per-stream event logs
+    that are equal once the frame offsets recorded in stream `i`'s log are shifted by some `dᵢ`.  Hence
+    the same audio.  From any stream states, for every `frame_size`, `decode_fec`, soft-clip flag. -/
+theorem ms_unpad_same_decode (os1 os2 : Nat → Oracle) (l : Layout.ChannelLayout) (Fs : Int) (sts : List DecState)
+    (ps : List Packet) (hne : ps ≠ []) (hv : ∀ p ∈ ps, Valid p) (hn : ps.length = l.nbStreams)
+    (hos : ∀ i, i < ps.length → OracleShift (os1 i) (os2 i) (firstShift (ps.drop i)))
+    (frame_size fec : Int) (sc : Bool) :
+    ∃ out, msUnpad (msSerialize ps) ps.length = .ok out ∧
+      (msDecodeFull os2 l Fs sts out out.length frame_size fec sc).ret =
+        (msDecodeFull os1 l Fs sts (msSerialize ps) (msSerialize ps).length frame_size fec sc).ret ∧
+      (msDecodeFull os2 l Fs sts out out.length frame_size fec sc).sts =
+        (msDecodeFull os1 l Fs sts (msSerialize ps) (msSerialize ps).length frame_size fec sc).sts ∧
+      (msDecodeFull os2 l Fs sts out out.length frame_size fec sc).copies =
+        (msDecodeFull os1 l Fs sts (msSerialize ps) (msSerialize ps).length frame_size fec sc).copies ∧
+      (msDecodeFull os2 l Fs sts out out.length frame_size fec sc).trace.map Prod.fst =
+        (msDecodeFull os1 l Fs sts (msSerialize ps) (msSerialize ps).length frame_size fec sc).trace.map Prod.fst ∧
+      ∃ ds : List Int,
+        ds.length = (msDecodeFull os1 l Fs sts (msSerialize ps) (msSerialize ps).length frame_size fec sc).logs.length ∧
+        (msDecodeFull os2 l Fs sts out out.length frame_size fec sc).logs =
+          List.zipWith (fun lg d => lg.map (Ev.shiftOff d))
+            (msDecodeFull os1 l Fs sts (msSerialize ps) (msSerialize ps).length frame_size fec sc).logs ds := by
+  obtain ⟨h1, h2, h3, h4, h5⟩ := msDecodeFull_unpad os1 os2 l Fs sts ps hne hv hn hos frame_size fec sc
+  exact ⟨_, msUnpad_serialize ps hne hv, h1, h2, h3, h4, h5⟩
 
 /-- The extension-free hypothesis is met by everything the library itself pads: zero padding (and no
     padding) has extension count 0 (`count_zeros` is C16's lemma), so packets produced by `out` with
